@@ -307,6 +307,8 @@ def make_params(ex: Executor, st: State, fi, con: Contract) -> dict[str, V]:
             st.assume(Val.rv(t) >= 0)
         if ty.kind == 'opt' and ty.args[0].kind in ('ref', 'list', 'dict', 'set'):
             st.assume(z3.Or(t == Val.none, z3.And(Val.rv(t) < st.alloc0, Val.rv(t) >= 0)))
+        if ty.kind == 'dict':
+            st.assume_wf_dict(v)
         if nme == 'self' and fi.cls:
             cls = con.self_class or ex.repo.class_key(ex.repo.find_class(fi.cls, fi.module))
             r = Val.rv(t)
@@ -459,6 +461,8 @@ def verify_function(repo: Repo, registry: Registry, con: Contract, prop: str, sp
     except Unsupported as e:
         res.status = 'out-of-subset'
         res.error = str(e)
+        if os.environ.get('PYVC_TRACE'):
+            res.error += '\n' + traceback.format_exc(limit=30)
         res.notes = list(ctx.notes)
         res.seconds = round(time.time() - t0, 3)
         return res
